@@ -28,6 +28,14 @@ Local Open Scope list_scope.
      ABoolAlpha b  os << std::boolalpha << b
    and iostream manipulators passed as arguments (AManip): they only change the state of the stream they
    are inserted into, which is discarded, so they render as the empty text.
+     ADual shown conv   an argument of a type that has BOTH an operator<< (printing `shown`) and, optionally, a
+                   conversion to a string type (giving `conv`): std::filesystem::path (<< prints it quoted, the
+                   conversion is the bare text), a user type with operator std::string() / operator const char*()
+                   / an explicit conversion operator and a decorating operator<<, std::string_view and a char
+                   array (both texts the same), a type that can only be streamed (conv = None).  The library
+                   reaches arguments through operator<< ONLY (str << arg in operator%, msg << arg in
+                   make_exception), so `conv` is carried along and never read (see `dual` below for the kinds
+                   the driver passes).
    The printers stand for libstdc++'s operator<<; that correspondence is only exercised by the driver,
    not proved. *)
 Inductive manip :=
@@ -37,7 +45,8 @@ Inductive manip :=
 Inductive arg :=
   | AStr (s : str) | AInt (z : Z) | ADbl (z : Z) | ABool (b : bool) | AHalf (z : Z)
   | AHexer (z : Z) | AFixer (z : Z) | APadder (z : Z) | ABoolAlpha (b : bool)
-  | AManip (m : manip).
+  | AManip (m : manip)
+  | ADual (shown : str) (conv : option str).
 
 Fixpoint render_uint (u : Decimal.uint) : str :=
   match u with
@@ -96,7 +105,40 @@ Definition render (a : arg) : str :=
   | APadder z => print_padded z
   | ABoolAlpha b => print_boolalpha b
   | AManip _ => []
+  | ADual shown _ => shown
   end.
+
+(* ---------- arguments with a conversion text besides their stream text ----------
+   The kinds of such arguments the driver passes, each built from one payload text s:
+     KTagged      struct with  operator std::string() const  (implicit) -> s ;  operator<< prints <s>
+     KPath        std::filesystem::path(s): implicit conversion to std::string -> s ;  operator<< prints std::quoted(s)
+     KCstr        struct with  operator const char*() const  (implicit) -> s ;  operator<< prints [s]
+     KExplicit    struct with  explicit operator std::string() const -> s ;  operator<< prints (s)
+     KView        std::string_view: std::string(v) -> s ;  operator<< prints s
+     KArray       char[16] holding s and a NUL: decays to const char* -> s ;  operator<< prints s
+     KStreamOnly  struct with an operator<< printing #s and no conversion at all *)
+Inductive ckind := KTagged | KPath | KCstr | KExplicit | KView | KArray | KStreamOnly.
+(* std::quoted with the default delimiter (double quote, 0x22) and escape (backslash, 0x5c) *)
+Definition quoted (s : str) : str :=
+  x22 :: flat_map (fun b => match b with x22 | x5c => [x5c; b] | _ => [b] end) s ++ [x22].
+Definition dual (k : ckind) (s : str) : arg :=
+  match k with
+  | KTagged => ADual (x3c :: s ++ [x3e]) (Some s)
+  | KPath => ADual (quoted s) (Some s)
+  | KCstr => ADual (x5b :: s ++ [x5d]) (Some s)
+  | KExplicit => ADual (x28 :: s ++ [x29]) (Some s)
+  | KView => ADual s (Some s)
+  | KArray => ADual s (Some s)
+  | KStreamOnly => ADual (x23 :: s) None
+  end.
+(* the conversion text of an argument, where it has one (never used by the formatter or the message) *)
+Definition conv_text (a : arg) : option str :=
+  match a with ADual _ c => c | AStr s => Some s | _ => None end.
+(* the same argument without its conversion / with another conversion text *)
+Definition forget_conv (a : arg) : arg :=
+  match a with ADual shown _ => ADual shown None | _ => a end.
+Definition with_conv (c : option str) (a : arg) : arg :=
+  match a with ADual shown _ => ADual shown c | _ => a end.
 
 (* ---------- the same under a global locale with digit grouping ----------
    Every stream the library creates (operator%'s stringstream, make_string's) is default-constructed and so
@@ -133,7 +175,7 @@ Definition localize (a : arg) : arg := AStr (render_loc a).
 
 (* the arguments that leave the formatting state of the stream they are written to unchanged *)
 Definition stateless (a : arg) : bool :=
-  match a with AStr _ | AInt _ | ADbl _ | ABool _ | AHalf _ => true | _ => false end.
+  match a with AStr _ | AInt _ | ADbl _ | ABool _ | AHalf _ | ADual _ _ => true | _ => false end.
 
 (* ---------- formatter ---------- *)
 
@@ -264,7 +306,10 @@ Definition format_seq (l : list (str * list op)) : list res :=
    code only for argument lists whose members are all `stateless`; the theorem about it carries that
    hypothesis and the driver only sends such lists. *)
 
-(* detail::make_exception<Arg, Args...>::operator():  msg << arg; recurse on the rest.  The recursion
+(* exception has ONE constructor, the variadic template  explicit exception(Args&&... args), for every number
+   and type of arguments — also for a single argument that is itself convertible to std::string: that
+   argument is streamed like any other (msg << arg), its conversion is not used.
+   detail::make_exception<Arg, Args...>::operator():  msg << arg; recurse on the rest.  The recursion
    ends at the one-argument specialisation; a call without any argument does not compile, the []
    case below is never reached through the public interface. *)
 Fixpoint make_exception (msg : str) (args : list arg) : str :=
